@@ -24,6 +24,8 @@ struct Args {
     replay: Option<PathBuf>,
     seed: u64,
     list_shapes: bool,
+    /// property id to print in VIOLATION / KNOWN-FINDING lines (a sub-check reports as its property)
+    report_as: Option<String>,
 }
 
 fn parse_args() -> Args {
@@ -44,6 +46,7 @@ fn parse_args() -> Args {
             .and_then(|s| s.parse().ok())
             .unwrap_or(0),
         list_shapes: false,
+        report_as: None,
     };
     let mut it = std::env::args().skip(1);
     while let Some(x) = it.next() {
@@ -62,6 +65,7 @@ fn parse_args() -> Args {
             "--replay" => a.replay = it.next().map(PathBuf::from),
             "--seed" => a.seed = it.next().unwrap().parse().unwrap(),
             "--list-shapes" => a.list_shapes = true,
+            "--report-as" => a.report_as = it.next(),
             s if !s.starts_with("--") => a.id = s.to_string(),
             s => {
                 eprintln!("unknown argument {}", s);
@@ -136,6 +140,7 @@ fn drive<P: Prop>(p: &P, a: &Args) -> i32 {
         return replay_one(p, f);
     }
     let t0 = Instant::now();
+    let rid: String = a.report_as.clone().unwrap_or_else(|| p.id().to_string());
     let mut shapes = p.shapes(a.tier);
     if a.list_shapes {
         for s in &shapes {
@@ -212,7 +217,7 @@ fn drive<P: Prop>(p: &P, a: &Args) -> i32 {
         format!("{}{:?}{:?}", p.shape_json(shape), v.ints, v.bools).hash(&mut h);
         let file = replay_dir.join(format!("{}-{:016x}.json", p.id(), h.finish()));
         let doc = json!({
-            "property": p.id(), "shape": p.shape_json(shape), "ints": v.ints, "bools": v.bools,
+            "property": rid, "sub_check": p.id(), "shape": p.shape_json(shape), "ints": v.ints, "bools": v.bools,
             "inputs": desc, "message": v.msg, "path_condition": v.path_condition,
             "notes": v.notes.iter().map(|(k, x)| json!({k.as_str(): x})).collect::<Vec<_>>(),
             "replay": format!("./check --replay {}", file.display()),
@@ -245,7 +250,7 @@ fn drive<P: Prop>(p: &P, a: &Args) -> i32 {
             kf.iter().find(|f| {
                 f["status"] == "known"
                     && f["site"].as_str() == Some(s.as_str())
-                    && f["properties"].as_array().map_or(false, |ps| ps.iter().any(|x| x == p.id()))
+                    && f["properties"].as_array().map_or(false, |ps| ps.iter().any(|x| x == rid.as_str()))
             })
         });
         if let Some(f) = known {
@@ -253,7 +258,7 @@ fn drive<P: Prop>(p: &P, a: &Args) -> i32 {
             if reported_sites.insert(s.clone()) {
                 println!(
                     "KNOWN-FINDING: property={} {} (site {}; e.g. inputs {}; replay={})",
-                    p.id(),
+                    rid,
                     f["what"].as_str().unwrap_or(""),
                     s,
                     desc,
@@ -266,7 +271,7 @@ fn drive<P: Prop>(p: &P, a: &Args) -> i32 {
         exit = 1;
         let key = v.msg.split(" (calls").next().unwrap_or("").chars().take(60).collect::<String>();
         if reported_msgs.insert(key) || n_viol <= 3 {
-            println!("VIOLATION property={} replay={}", p.id(), file.display());
+            println!("VIOLATION property={} replay={}", rid, file.display());
             println!("  what: {}", v.msg);
             println!("  inputs: {}", desc);
             println!("  reproduced natively: dev-semantics={} release-semantics={:?}", dev_repro, rel_repro);
@@ -289,7 +294,7 @@ fn drive<P: Prop>(p: &P, a: &Args) -> i32 {
         exit = 2;
     }
     for m in &inconclusive {
-        println!("INCONCLUSIVE property={} {}", p.id(), m);
+        println!("INCONCLUSIVE property={} {}", rid, m);
     }
 
     // ---- evidence
@@ -384,10 +389,14 @@ fn main() {
         "C05" => drive(&props::udiff::C05, &a),
         "C13" => drive(&props::text::Text(props::text::Which::C13), &a),
         "C14" => drive(&props::text::Text(props::text::Which::C14), &a),
+        "C16" => drive(&props::inline::C16, &a),
         "C17" => drive(&props::text::Text(props::text::Which::C17), &a),
         "C15" => drive(&props::misc::C15, &a),
+        "C18" => drive(&props::closematch::C18, &a),
         "C19" => drive(&props::misc::C19, &a),
         "C20" => drive(&props::misc::C20, &a),
+        "C12s" => drive(&props::text::Text(props::text::Which::C12s), &a),
+        "C14b" => drive(&props::text::TextBig, &a),
         "C14a" => drive(&props::misc::IdDistinct, &a),
         other => {
             eprintln!("unknown property {}", other);
